@@ -1,5 +1,6 @@
 """C18 — validating entry points agree with plain ones and locate every failed field (DESIGN §4 C18).
 Configurations with `garde` and / or `validator` only."""
+import re
 from ..mir import MissingAnchor, sym_contains, norm
 from ..rules import render, aggregates, last_seg, bool_switches, must_pass, switch_edges, err_return_blocks
 from .. import proto
@@ -35,6 +36,44 @@ def validate_calls(f, fx):
     return out
 
 
+def rule_tree_walk_paths(ctx, fx, config):
+    """PATH: the walkers of validator's nested error tree hand every child its own path.  Either the path parameter is a shared
+    reference (each level builds a fresh clone + join — nothing can accumulate), or, when one buffer is threaded mutably, every
+    segment pushed inside a loop is taken off again on every way back to that loop's head.  A list index that stays on the buffer
+    makes every further element of the same sequence `items[1][2].field`, which is not in the path map: the issue loses its
+    position and its snippet."""
+    walkers = [f for f in fx.fns.values() if re.search(r"(^|::)collect_validator_\w+_inner$", f.npath)]
+    if "validator" not in (fx.data.get("features") or []):
+        return
+    ctx.floor("PATH.walkers", len(walkers), 1, config)
+    for f in sorted(walkers, key=lambda g: g.npath):
+        ctx.saw(f)
+        pidx = [i for i in range(1, f.nargs + 1) if re.match(r"^&(mut )?(\w+::)*PathKey$", f.local_ty(i))]
+        if not ctx.check(len(pidx) == 1, "PATH", "C18:PATH:walker-path-param:%s" % f.name, "the walker takes one path parameter", "%s no longer takes a single PathKey parameter" % f.npath, config, ctx.where(f)):
+            continue
+        ty = f.local_ty(pidx[0])
+        if not ty.startswith("&mut"):
+            ctx.ok("PATH", "C18:PATH:walker-path-balanced:%s" % f.name, "the path parameter is a shared reference (%s): every child path is a fresh clone + join" % ty, config, ctx.where(f))
+            continue
+        loops = [c for c in f.sccs() if len(c) > 1]
+        pushes = [b for b, t in f.calls() if last_seg(fx.callee(t)) in ("push", "join", "push_str", "extend") and t["args"] and "path" in render(f.sym_operand(t["args"][0]))]
+        pops = [b for b, t in f.calls() if last_seg(fx.callee(t)) in ("pop", "truncate", "truncate_to", "clear") and t["args"] and "path" in render(f.sym_operand(t["args"][0]))]
+        ok = bool(pushes)
+        for pb in pushes:
+            inner = [c for c in loops if pb in c]
+            if not inner:
+                continue
+            comp = min(inner, key=len)
+            # heads of the innermost loop containing the push: blocks of the component with a predecessor outside it
+            heads = [x for x in comp if any(p not in comp for p in f.pred[x])] or list(comp)[:1]
+            nxt = f.blocks[pb]["term"].get("t")
+            # innermost *iteration* loop: the loop whose head is reached again — approximate by every sub-cycle through pb
+            if nxt is None or not must_pass(f, [nxt], pops, to_blocks=[pb]):
+                ok = False
+        ctx.check(ok, "PATH", "C18:PATH:walker-path-balanced:%s" % f.name, "every segment pushed on the shared path buffer is taken off before the same push runs again",
+                  "%s threads one mutable path buffer and a segment pushed in a loop (a list index) is still on it when the next element is visited: all but the first failing element of a sequence get a path like `items[1][2].field`, which has no recorded location" % f.npath, config, ctx.where(f))
+
+
 def run(ctx):
     cs = cfgs(ctx)
     ctx.floor("configs-with-validation", len(cs), 1, None)
@@ -43,6 +82,7 @@ def run(ctx):
         from .C16 import rule_use_site_sources, rule_defined_from_peek
         rule_use_site_sources(ctx, fx, config, prop="C18")
         rule_defined_from_peek(ctx, fx, config, prop="C18")
+        rule_tree_walk_paths(ctx, fx, config)
         # ---- the validating entries: functions that construct the event source and call validate, plus iterator nexts
         ents = []
         for e in proto.entries(fx):
